@@ -50,7 +50,7 @@ func (g *ttlGen) ws(must bool) {
 	case k == 7:
 		g.sb.WriteString("\t ")
 	case k == 8:
-		g.sb.WriteString(" # c <x> \"y\n")
+		g.sb.WriteString(" # c <x> \"y" + hx.Pick(g.r, []string{"\n", "\n", "\r", "\r\n"}))
 		g.use("comment")
 	case k == 9:
 		g.sb.WriteString("\r\n  ")
